@@ -68,6 +68,27 @@ pub fn instant_now() -> std::time::Instant {
     unsafe { core::mem::zeroed() }
 }
 
+/// `Instant::elapsed` -> zero (std's Timespec subtraction is recursive and is unwound to the
+/// bound on values that went through a channel; durations feed only time metrics)
+pub fn instant_elapsed(_i: &std::time::Instant) -> std::time::Duration {
+    std::time::Duration::from_secs(0)
+}
+
+/// `Mutex::lock` -> `try_lock`.  In the sequentialised model a mutex that is already held
+/// is held by a suspended context on the same stack, so waiting can never succeed: it is
+/// reported as a deadlock instead of unwinding std's spin/futex loop (which the symbolic
+/// executor otherwise explores at every lock site whose state it cannot constant-fold).
+/// Draws no symbolic values; natively (playback) the real `lock` is used.
+pub fn mutex_lock<T: ?Sized>(m: &std::sync::Mutex<T>) -> std::sync::LockResult<std::sync::MutexGuard<'_, T>> {
+    match m.try_lock() {
+        Ok(g) => Ok(g),
+        Err(std::sync::TryLockError::Poisoned(p)) => Err(p),
+        Err(std::sync::TryLockError::WouldBlock) => {
+            panic!("VERIF-DEADLOCK: lock() on a mutex that is already held by a suspended context")
+        }
+    }
+}
+
 // ---------------------------------------------------------------------------------------
 // scheduling points raised by scripted callbacks
 // ---------------------------------------------------------------------------------------
